@@ -21,7 +21,9 @@ CLAIMED = {
         "projection-data header writer emits is registered by the reader classes with the same vectorisation; every read path of "
         "ProjDataFromStream applies scale_factor exactly once (raw reads are scaled before every return, data from another getter is not "
         "scaled again) and every write path divides by it once before the raw write (a value the float scale cannot represent is an "
-        "error, not silently rounded: defect F12, fixed). Value round trips, byte order, number-type conversion and header values are NOT decided.",
+        "error, not silently rounded: defect F12, fixed); the Bin whose address a getter/setter requests carries every index of the "
+        "piece asked for (segment, view or axial position, TOF index) in its own slot, and a getter builds the piece it returns from "
+        "the same indices. Value round trips, byte order, number-type conversion and header values are NOT decided.",
         technique="static analysis: must-facts dataflow over clang CFG (bounds), symbolic layout algebra on the address expression, "
         "must-pass-through (flush), resolved-callee provenance",
     ),
@@ -66,7 +68,8 @@ CLAIMED = {
         "paths; every direct write to shared storage in each of the 17 parallel regions and in the projectors' entry points is synchronised, "
         "per-thread, a reduction or indexed by the loop's own variable; every non-const call on a shared object in a region is synchronised "
         "or a reviewed thread-safe entry point; stream/buffer accesses of the file and memory ProjData back-ends are inside their named "
-        "critical; scatter-cache cells are accessed atomically; the append-only detection-point table is reserved before use; per-thread "
+        "critical; scatter-cache cells are accessed atomically; the append-only detection-point table is reserved before use - after every "
+        "reset and after every change of the size the appends stop at; per-thread "
         "accumulators (containers indexed by omp_get_thread_num()) are reduced and reset completely - every loop over them outside a "
         "region visits all slots and is never left early. NOT decided: numerical equality up to reassociation, memory-model adequacy of "
         "omp atomic, thread-safety inside callees beyond the reviewed table.",
@@ -98,7 +101,10 @@ CLAIMED = {
         "random schedule indexes with the expression of its regeneration test and the random order exists before its first read for "
         "every start sub-iteration (abstract interpretation); the view symmetries are off whenever num_views is not divisible by 4 "
         "resp. 2 on every constructor path; get_subset_num() (which draws a new random order) is consulted exactly once per "
-        "sub-iteration: one call outside any loop in each update_estimate implementation and no call anywhere else in the library. "
+        "sub-iteration: one call outside any loop in each update_estimate implementation and no call anywhere else in the library; every "
+        "TOF bin is processed: the objective function hands the distributable layer the symmetric range of one member, that member "
+        "is re-derived from the data's maximum TOF index on every path of the set-up, and distributable_computation's TOF loop runs "
+        "over exactly the range it is handed. "
         "NOT decided: that randomly_permute_subset_order returns a permutation; that "
         "is_basic/related views partition the views for each symmetry class (modular arithmetic over num_views).",
         technique="static analysis: normalised loop descriptors, sibling agreement, resolved-callee argument pass-through, "
@@ -110,7 +116,9 @@ CLAIMED = {
         "homogeneous of degree 1 in the two activity line integrals, vanishes for zero activity consistently with the early return, and "
         "the activity enters nowhere else; both cached accessors compute a miss by the uncached function with the same arguments, store "
         "that value in the cell addressed by the same two indices and return it; every public setter clears _already_set_up, every "
-        "function replacing an input of a cache drops that cache, process_data requires set-up. NOT decided: non-negativity, numerical "
+        "function replacing an input of a cache drops that cache (line-integral caches, and every lazily computed member - found from "
+        "the code as `const function recomputes M when M fails its sentinel test` - with the members its defining expression reads; "
+        "defect F17, fixed), process_data requires set-up. NOT decided: non-negativity, numerical "
         "equality with a freshly configured simulation.",
         technique="static analysis: closed-form algebra (sympy) on extracted expression DAGs, sibling agreement, setter/cache invalidation "
         "must-pass-through",
@@ -149,7 +157,8 @@ CLAIMED = {
         "only under a dominating size test with error() exit (unsigned comparison catches negative indices) and index presence must match "
         "the registration; the Interfile per-data-set vectors are sized with get_num_datasets(), the bound of the loops that index them; "
         "header parse and post_processing() results are tested on the reader chain; keywords are standardised before being stored or "
-        "compared, alias resolution follows standardisation and precedes the look-up. NOT decided: absence of out-of-bounds access under "
+        "compared, alias resolution follows standardisation and precedes the look-up; list-valued header vectors that a helper indexes in lock step are each size-tested "
+        "against one expected count (exit on mismatch) on every path to that call. NOT decided: absence of out-of-bounds access under "
         "arbitrary bytes for the whole parser, unbounded allocation, value formatting round trips.",
         technique="static analysis: switch exhaustiveness against the registration API, must-facts bounds, resolved-callee ordering "
         "(must-pass-through), result-use discipline",
@@ -158,7 +167,8 @@ CLAIMED = {
         text="Static analysis of the current source. Decides for LmToProjData::process_data: the segment and TOF batch loops step by "
         "their window width with window end min(max+1,start+width)-1 and the store is guarded by start<=coordinate<=end for both (every "
         "accepted event is stored in exactly one pass, whatever the numbers held in memory); later passes over a frame rewind to the "
-        "saved frame start and reset the clock, the first pass saves that position after skipping to the frame start; the store is "
+        "saved frame start and reset the clock, the first pass saves that position after skipping to the frame start, and no record is "
+        "consumed between the save / the rewind and the event loop; the store is "
         "dominated by range tests of tangential, axial and TOF index and bin_value>0 is the first acceptance test; the amount added is "
         "bin_value*event_increment with the documented prompt/delayed increment and the event budget decreases by the same increment; "
         "each allocated batch is saved and freed with the same window on every normal path; list-mode subsets select events by the "
